@@ -69,6 +69,14 @@ def gen_pop_case(rng, crnc_bias=0.5, metrics=METRICS):
         if len(set(ks)) == 1: ks[0] = 70 if ks[0] != 70 else 0
         F = [[x * 2.0 ** k for x, k in zip(r, ks)] for r in F]
         style = style + "-mixedunits"
+    elif F and rng.random() < 0.12:
+        # objectives that are negative for every individual (a maximisation objective written as -f), or that span zero
+        for j in range(len(F[0])):
+            if rng.random() < 0.6:
+                c = max(r[j] for r in F) + rng.choice([1.0, 0.5, 8.0]) if rng.random() < 0.7 else (max(r[j] for r in F) + min(r[j] for r in F)) / 2
+                for r in F:
+                    r[j] = r[j] - c
+        style = style + "-negative"
     case = {"F": F, "G": G, "H": H, "n_survive": k, "cls": cls, "cf": cf, "style": style, "feasmode": feasmode, "seed": rng.randrange(2 ** 31)}
     if rng.random() < 0.25:
         case["prime"] = rng.choice(["other", "same", "samefull"])     # the operator object has served another (all-feasible) / the same population before
